@@ -13,6 +13,18 @@ theorem flatMap_congr' {α β : Type} (l : List α) (f g : α → List β) (h : 
   | cons a t ih =>
     rw [List.flatMap_cons, List.flatMap_cons, h a (by simp), ih (fun x hx => h x (by simp [hx]))]
 
+/-! ## The repaired variant: its flags, and the walkers unfolded (no callback can abort the walk) -/
+
+@[simp] theorem repaired_guard : Variant.repaired.guardCallbacks = true := rfl
+@[simp] theorem repaired_helloNeedsName : Variant.repaired.helloNeedsName = true := rfl
+
+@[simp] theorem runConnCbs_nil (s : St) : runConnCbs .repaired [] s = s := rfl
+@[simp] theorem runConnCbs_cons (c : Cb) (t : List Cb) (s : St) :
+    runConnCbs .repaired (c :: t) s = runConnCbs .repaired t (runConnCb .repaired c s) := rfl
+@[simp] theorem runProxyCbs_nil (p : Nat) (s : St) : runProxyCbs .repaired p [] s = s := rfl
+@[simp] theorem runProxyCbs_cons (p : Nat) (c : Cb) (t : List Cb) (s : St) :
+    runProxyCbs .repaired p (c :: t) s = runProxyCbs .repaired p t (runProxyCb .repaired p c s) := rfl
+
 /-! ## `react`: fields it never touches -/
 
 @[simp] theorem react_phase (w : Who) (r : Reaction) (s : St) : (react .repaired w r s).phase = s.phase := by
@@ -104,20 +116,25 @@ theorem mem_regSet_of_mem {k p : Nat} {e : Nat × Nat} : ∀ {reg : List (Nat ×
 
 theorem react_keepsAll_conn (c : Cb) (r : Reaction) (s : St) : KeepsAll s (react .repaired (.connCb c) r s) := by
   intro q x h
-  cases r <;> simp only [react, issueCall, makeProxyCbs] <;> first | exact h | exact findProxy_append_some _ h
+  cases r <;> simp only [react, issueCall, makeProxyCbs, repaired_guard, ↓reduceIte] <;>
+    first | exact h | exact findProxy_append_some _ h
 
 theorem react_keepsAll_errback (c : Call) (r : Reaction) (s : St) : KeepsAll s (react .repaired (.errback c) r s) := by
   intro q x h
-  cases r <;> simp only [react, issueCall, makeProxyCbs] <;> first | exact h | exact findProxy_append_some _ h
+  cases r <;> simp only [react, issueCall, makeProxyCbs] <;>
+    first | exact h | exact findProxy_append_some _ h
 
 theorem react_keeps_proxy (p : Nat) (c : Cb) (r : Reaction) (s : St) : Keeps p s (react .repaired (.proxyCb p c) r s) := by
   intro q x hq h
-  cases r <;> simp only [react, issueCall, makeProxyCbs]
-  · exact h
-  · exact h
-  · refine Eq.trans ?_ h; apply findProxy_modifyProxy_ne _ _ hq; intro y; rfl
-  · refine Eq.trans ?_ h; apply findProxy_modifyProxy_ne _ _ hq; intro y; rfl
-  · exact findProxy_append_some _ h
+  cases r with
+  | nothing => exact h
+  | newCall => exact h
+  | unregisterSelf =>
+    simp only [react]; refine Eq.trans ?_ h; apply findProxy_modifyProxy_ne _ _ hq; intro y; rfl
+  | registerAnother =>
+    simp only [react]; refine Eq.trans ?_ h; apply findProxy_modifyProxy_ne _ _ hq; intro y; rfl
+  | raises => exact h
+  | newProxy => exact findProxy_append_some _ h
 
 /-! ## Pass 1: connection-level callbacks -/
 
@@ -168,6 +185,7 @@ theorem react_pendOk (w : Who) (r : Reaction) (s : St) (h : PendOk s) : PendOk (
   cases r
   · exact h
   · exact pendOk_issueCall _ _ _ h
+  · cases w <;> exact h
   · cases w <;> exact h
   · cases w <;> exact h
   · exact h
@@ -295,7 +313,7 @@ theorem runProxies_basic (reg : List (Nat × Nat)) : ∀ s : St,
     | some q =>
       by_cases ha : q.alive = true
       · have hv : Variant.repaired.snapshotCallbacks = true := rfl
-        simp only [ha, hv, if_true]
+        simp only [ha, hv, if_true, repaired_guard, Bool.not_true, Bool.false_and, Bool.false_eq_true, if_false]
         obtain ⟨g1, g2, g3, g5, _, _⟩ := runProxyCbs_frame p q.cbs s
         obtain ⟨h1, h2, h3, h5⟩ := ih (runProxyCbs .repaired p q.cbs s)
         exact ⟨by rw [h1, g1], by rw [h2, g2], by rw [h3, g3], by rw [h5, g5]⟩
@@ -323,7 +341,7 @@ theorem runProxies_log (reg : List (Nat × Nat)) (hnd : (reg.map (·.2)).Nodup) 
     | some q =>
       by_cases ha : q.alive = true
       · have hv : Variant.repaired.snapshotCallbacks = true := rfl
-        simp only [ha, hv, if_true]
+        simp only [ha, hv, if_true, repaired_guard, Bool.not_true, Bool.false_and, Bool.false_eq_true, if_false]
         obtain ⟨_, _, _, _, g6, g7⟩ := runProxyCbs_frame p q.cbs s
         have hext' : ∀ e ∈ t, ∃ x, findProxy e.2 (runProxyCbs .repaired p q.cbs s).proxies = some x := by
           intro e he
